@@ -86,6 +86,27 @@ PROPS = {
         "assumptions": COMMON_ASSUME,
         "trusted_base": ['modelled, not verified: binread (header parser driver), serde visitors of IDLValue, HashMap, RecursionDepth/stacker (not modelled), std::str::from_utf8 (modelled by utf8_valid)'],
     },
+    "C01": {
+        "claim": "Correspondence on a corpus of 110 Rust types (all primitives, 128-bit and big numbers, text, principal, reserved, function / service "
+                 "references, Option / Vec / VecDeque / BTreeSet / BTreeMap (14 key x value combinations incl. big-number keys next to non-text keys and "
+                 "nested maps) / tuples / arrays / Box / Rc / Arc / ByteBuf / Result, derived structs (named, renamed incl. non-ASCII, tuple, newtype, unit, "
+                 "generic), enums (unit / newtype / tuple / struct variants, renamed), recursive and mutually recursive types): every value is obtained by "
+                 "natively decoding a message the harness's independent encoder wrote; (1) c01.wf: the bytes the native encoder writes for it are checked BY "
+                 "THE MODEL (M^-1 and structural type equality, both proved correct) to be a well-formed message of exactly that abstract value at the "
+                 "Rust type's Candid type; (2) c08.native: native decoding returns the specification decoder's value; (3) p.c01.roundtrip: decode(encode x) "
+                 "== x (PartialEq, bytes stable, decode_one too, nothing unread); (4) p.c01.history: the same trace (type, bytes, value) on a fresh thread and "
+                 "after 1-6 random earlier derivations / encodes / decodes / new builders of other corpus types on the thread. Coq theorems (closed): "
+                 "M^-1 (M v) = v for all values/types/depths, little-endian and (S)LEB128 round trips, one ascending field order.",
+        "note": "The Rust-type layer itself (serde impls, derive macro output, the type memo) is not modelled in Coq: for it the claim rests on the corpus-driven "
+                "correspondence, not on a theorem. History independence is a predicate over sampled histories. HashMap/HashSet are left out (iteration order).",
+        "props_file": "props/C01.v",
+        "shards": (4, 16),
+        "rule": "cases: 3 (x10 thorough) values per corpus type with growing budget, map entries in key order without duplicates, arrays / bounded vectors "
+                "within their host limits, big numbers below 2^100; per value one c01.wf, c08.native, p.c01.roundtrip and p.c01.history case. "
+                "Non-trivial = the value has more than one node.",
+        "assumptions": COMMON_ASSUME,
+        "trusted_base": ["modelled, not verified: serde's Deserialize/Serialize impls for std types (serde 1.0.224), the output of candid_derive for the corpus types, the thread-local type memo (types/internal.rs) and TypeId plumbing: all exercised by the corpus, none transcribed to Coq", "the harness's independent encoder (harness/src/val.rs: type table + M with padding knobs) that writes the input messages"],
+    },
     "C02": {
         "claim": "The specification-level decoder spec_decode (header grammar with every validation rule incl. replace_empty, M^-1 at the wire types, the coercion relation of spec/Candid.md as a function, the argument-sequence rule) is written in Coq and extracted; Coq theorems (closed, no axioms): M^-1 inverts M at every type for every well-typed value and any trailing input; coercion is well-typed and on well-typed input only yields a value of the expected type, 'no coercion' or fuel exhaustion; coercion at the same type never fails; the reference check inside coercion (sub_dec_fast) decides the co-inductive subtype relation. The implementation's fused decoder is compared with spec_decode through binary_parser::Header (table and argument types), IDLArgs::from_bytes and IDLArgs::from_bytes_with_types on valid messages of random possibly-recursive wire types built by an independent encoder (padded LEBs, unusual table layouts), crossed with identical, upgraded, mutated, unrelated, shorter and longer expected type sequences, on byte-level mutants and on hostile headers.",
         "note": "Not proved: that the Rust deserializer (de.rs, ~1800 lines, fused decode/coerce with back-tracking) equals spec_decode for all inputs -- this equality is differential only; because spec_decode is exact and its meta-theory proved, every disagreement is a failing input. Limits: element counts above 2*10^6 and nesting beyond the model's fuel are skipped; future-typed values are not modelled; the recursion-depth guard is outside the model.",
@@ -138,6 +159,26 @@ PROPS = {
         "assumptions": COMMON_ASSUME,
         "trusted_base": ["modelled, not verified: crc32fast, data-encoding BASE32_NOPAD"],
     },
+    "C06": {
+        "claim": "Fuzzing, in debug AND release builds, under catch_unwind, of native decoding at every corpus type (110 Rust types) and of untyped decoding: "
+                 "valid messages, 3 byte-level mutants each (incl. 10/11-byte LEB128 counts), a message of another type, hostile headers, random bytes with "
+                 "and without magic, zero-sized element bombs (vec null / reserved / empty record with counts up to 2^64), nesting 50..40000 of opt and vec, "
+                 "over-long LEB128; under 6 quota configurations (none .. (0,0)), full error messages on/off, on 256 KiB thread stacks, with a counting "
+                 "allocator bounding bytes allocated by 4 MiB + 256 x input length + 256 x quota; an abort or stack overflow kills the run and is reported "
+                 "with the input it was working on. Coq theorems (closed) on the decoder model De.v for ALL inputs: the header parser and every value "
+                 "reader only consume; under quota q a successful decode returns at most q value nodes (zero-sized included) and the budget is never "
+                 "overdrawn; unterminated LEB128 is an error.",
+        "note": "Panic-freedom, stack use and allocation of the real code are runtime behaviours the model cannot exhibit: for them this is a search "
+                "(fuzzing), not a proof -- the property is only partially at proof level. The native quota laws (p.c07.native) are evaluated here as well.",
+        "props_file": "props/C06.v",
+        "shards": (8, 16),
+        "release": True,
+        "gen_timeout": 3000,
+        "rule": "cases: per corpus value 6 inputs x up to 6 configurations + allocation bound + small-stack run; 120 (x10) hostile / random inputs against 13 "
+                "representative types and the untyped entry points. All cases non-trivial.",
+        "assumptions": COMMON_ASSUME,
+        "trusted_base": ["modelled, not verified: serde's Deserialize/Serialize impls for std types (serde 1.0.224), the output of candid_derive for the corpus types, the thread-local type memo (types/internal.rs) and TypeId plumbing: all exercised by the corpus, none transcribed to Coq", "the harness's independent encoder (harness/src/val.rs: type table + M with padding knobs) that writes the input messages"],
+    },
     "C07": {
         "claim": "De.v mirrors the deserializer of rust/candid/src/de.rs as it is -- order of unroll_type / check! / add_cost / reads in every "
                  "deserialize_* entry, the primitive-vector, big-number and blob fast paths, the field merge of the struct MapAccess, the variant "
@@ -163,6 +204,26 @@ PROPS = {
         "assumptions": COMMON_ASSUME,
         "trusted_base": ["modelled, not verified: serde's Visitor plumbing between Deserializer and IDLValueVisitor / IgnoredAny (transcribed from serde 1.0.224), "
                          "the stack guard (RecursionDepth), binread's header reader (its model Wire.dec_header is the one checked by C02)"],
+    },
+    "C08": {
+        "claim": "c08.native: native decoding at each corpus type (110 Rust types, plus &[u8], &str, &Bytes, Cow<str>) is compared with the SPECIFICATION "
+                 "decoder (spec_decode, tied to the untyped API by C02 and proved well-typed) on messages whose wire type is the type itself, padded, 3 "
+                 "mutated sub/supertypes, 3 look-alikes (text<->blob, nat<->nat8/int/nat64, principal<->blob, bool<->nat8, ...), mutated recursive "
+                 "definitions and byte-level mutants; p.c08.agree evaluates the property directly (native ok iff untyped ok at T::ty(), same abstract value); "
+                 "for types with host limits (128-bit, bounded vectors, arrays) native may only reject more. Coq theorems (closed) on the shared "
+                 "fast-path code as modelled in De.v: the primitive-vector bulk path is guarded by EQUAL fixed-width element types and returns exactly what "
+                 "element-by-element decoding returns; likewise the big-number path (only nat/nat, int/int, int/nat) and the blob path; coercion results "
+                 "are well-typed.",
+        "note": "The native visitors (serde impls, derive output) are not modelled: their agreement is correspondence, not theorem. Known findings (recorded, "
+                "not fixed): an empty vector of a mismatching element type is rejected by native maps and byte buffers; native maps need the wire entry to be "
+                "exactly record {0;1}.",
+        "props_file": "props/C08.v",
+        "shards": (4, 16),
+        "rule": "cases: per corpus value 1 own-type + 1 padded + 6 mutated / look-alike wire types (non-empty vectors, map entries kept at {0,1}) + 1 "
+                "mutated environment + 1 byte mutant; 4 borrowed types x 7 wire types x 6; fixed known-finding streams. Non-trivial = value with more than one "
+                "node or any wire type different from the Rust type's.",
+        "assumptions": COMMON_ASSUME,
+        "trusted_base": ["modelled, not verified: serde's Deserialize/Serialize impls for std types (serde 1.0.224), the output of candid_derive for the corpus types, the thread-local type memo (types/internal.rs) and TypeId plumbing: all exercised by the corpus, none transcribed to Coq", "the harness's independent encoder (harness/src/val.rs: type table + M with padding knobs) that writes the input messages"],
     },
     "C09": {
         "claim": "Coq theorems (closed, no axioms) over executable mirrors of every (S)LEB128 codec in the code: Nat::decode, Int::decode, the "
